@@ -349,12 +349,30 @@ func init() {
 		if !c.decideBool(Gt(n, CI(0)), pos) {
 			panic(tpanic("invalid argument of BinaryLog at " + c.posStr(pos)))
 		}
+		// the real function works in place on its argument (it is the mantissa computation's
+		// scratch register): after the call the caller's big.Int holds that scratch value
 		if n.Op == OpConst {
-			ch, m := mathutil.BinaryLog(new(big.Int).Set(n.Val), int(bits)) // BinaryLog mutates its argument
+			scratch := new(big.Int).Set(n.Val)
+			ch, m := mathutil.BinaryLog(scratch, int(bits))
+			c.setBig(a[0], CInt(scratch), pos)
 			return tuple{CI(int64(ch)), newBigPtr(CInt(m))}
 		}
 		ch := Sub(bitLenTerm(n, c.h.maxBigBits), CI(1))
 		m := c.applyUFRange("binlog_mantissa", []*Term{n, CI(bits)}, bigZero, new(big.Int).Sub(Pow2(int(bits)), bigOne))
+		// true facts about the real function that keep models realistic: the mantissa of a power
+		// of two (stated for n <= 2^32) is zero; for n < 2^32 that is not a power of two the fractional part of log2 n is
+		// at least log2(1+2^-32) > 2^-33
+		isPow := TFalse
+		for k := 0; k <= 32; k++ {
+			isPow = Or(isPow, Eq(n, CInt(Pow2(k))))
+		}
+		c.addPC(Or(Not(isPow), Eq(m, CI(0))))
+		if bits >= 34 {
+			c.addPC(Or(Or(isPow, Not(Lt(n, CInt(Pow2(32))))), Ge(m, CInt(Pow2(int(bits)-33)))))
+		}
+		if bits > 0 {
+			c.setBig(a[0], c.newIntVar("binlog_clobbered_argument", bigZero, nil), pos)
+		}
 		return tuple{ch, newBigPtr(m)}
 	}
 
